@@ -47,7 +47,7 @@ Print Assumptions C06_eigpair_backward_adjoint.
    with W = Y^T G, F_ij = 1/(e_j - e_i) off the diagonal and 0 on it, R = Y (F o W) Y^T + Y diag(ge) Y^T, the
    symmetrised result (R + R^T)/2 - exactly the code - reproduces <G, dY> + sum_i ge_i de_i for EVERY symmetric
    tangent dA (any size, any field with a derivation and 1/2).  The masked entries of the code (|e_j - e_i| below the
-   threshold) are the diagonal ones here; exact degeneracies are covered by the model correspondence and the oracle *)
+   threshold) are the diagonal ones here; exact degeneracies: T5 below *)
 Theorem C06_dense_backward_adjoint : forall (F : fieldType) (D : derivation F) n (A Y : 'M[F]_n) (e : 'rV[F]_n),
   A^T = A -> Y^T *m Y = 1%:M -> Y *m Y^T = 1%:M -> A *m Y = Y *m diag_mx e ->
   (forall i j, i != j -> e 0 i != e 0 j) ->
@@ -59,3 +59,52 @@ Theorem C06_dense_backward_adjoint : forall (F : fieldType) (D : derivation F) n
   \tr (G^T *m dmx D Y) + \sum_i ge 0 i * D (e 0 i) = \tr ((half *: (R + R^T))^T *m dmx D A).
 Proof. move=> F D n A Y e HA H1 H2 He Hd half Hh G ge /=; exact: (degen_symeig_backward_adjoint D HA H1 H2 He Hd Hh). Qed.
 Print Assumptions C06_dense_backward_adjoint.
+
+(* T5: the SAME path when eigenvalues COINCIDE (second sentence of the property).  `mask` is the degeneracy map of the code
+   (|e_i - e_j| below the threshold): any reflexive, symmetric relation such that the pairs it does not mask have distinct
+   eigenvalues - exactly degenerate pairs MUST be masked, nearly degenerate ones may be.  If the cotangent meets the requirement
+   the code itself tests in debug mode - Y^T G symmetric on the masked pairs - the result with the masked entries of F set to zero
+   is finite (no division by e_j - e_i = 0 is ever formed) and reproduces <G, dY> + sum_i ge_i de_i for EVERY symmetric tangent dA
+   and EVERY differentiable choice of the basis Y inside the degenerate subspaces. *)
+Theorem C06_dense_backward_adjoint_degenerate : forall (F : fieldType) (D : derivation F) n (A Y : 'M[F]_n) (e : 'rV[F]_n),
+  A^T = A -> Y^T *m Y = 1%:M -> Y *m Y^T = 1%:M -> A *m Y = Y *m diag_mx e ->
+  forall half : F, half + half = 1 ->
+  forall mask : rel 'I_n, (forall i, mask i i) -> (forall i j, mask i j = mask j i) ->
+  (forall i j, ~~ mask i j -> e 0 i != e 0 j) ->
+  forall (G : 'M[F]_n) (ge : 'rV[F]_n),
+  (forall i j, mask i j -> (Y^T *m G) i j = (Y^T *m G) j i) ->
+  let Fm : 'M[F]_n := \matrix_(i, j) (if mask i j then 0 else (e 0 j - e 0 i)^-1) in
+  let FW : 'M[F]_n := \matrix_(i, j) (Fm i j * (Y^T *m G) i j) in
+  let R := Y *m FW *m Y^T + Y *m diag_mx ge *m Y^T in
+  \tr (G^T *m dmx D Y) + \sum_i ge 0 i * D (e 0 i) = \tr ((half *: (R + R^T))^T *m dmx D A).
+Proof.
+move=> F D n A Y e HA H1 H2 He half Hh mask Hr Hs Hd G ge Hq /=.
+exact: (@degen_symeig_backward_adjoint_masked F D n A Y e HA H1 H2 He half Hh mask Hr Hs Hd G ge Hq).
+Qed.
+Print Assumptions C06_dense_backward_adjoint_degenerate.
+
+(* the requirement IS "does not depend on the choice of basis inside the degenerate subspace", to first order: a loss whose
+   differential vanishes along every rotation Y -> Y exp(tK), K antisymmetric and supported on the masked pairs, has Y^T G
+   symmetric on them *)
+Theorem C06_gauge_invariance_is_the_requirement : forall (F : fieldType) n (Y G : 'M[F]_n) (mask : rel 'I_n),
+  (forall K : 'M[F]_n, K^T = - K -> (forall i j, ~~ mask i j -> K i j = 0) -> \tr (G^T *m (Y *m K)) = 0) ->
+  forall i j, mask i j -> mask j i -> (Y^T *m G) i j = (Y^T *m G) j i.
+Proof. exact gauge_invariance_gives_requirement. Qed.
+Print Assumptions C06_gauge_invariance_is_the_requirement.
+
+(* non-vacuity: a genuinely degenerate spectrum (A = 1, e = (1, 1)) with the full mask meets every hypothesis of T5 *)
+Example C06_degenerate_hypotheses_satisfiable :
+  let A : 'M[rat]_2 := 1%:M in let Y : 'M[rat]_2 := 1%:M in let e : 'rV[rat]_2 := \row_i 1 in
+  let mask : rel 'I_2 := fun _ _ => true in let G : 'M[rat]_2 := 1%:M in
+  [/\ A^T = A, Y^T *m Y = 1%:M, Y *m Y^T = 1%:M, A *m Y = Y *m diag_mx e & e 0 ord0 = e 0 (lift ord0 ord0)] /\
+  [/\ (forall i, mask i i), (forall i j, mask i j = mask j i), (forall i j, ~~ mask i j -> e 0 i != e 0 j) &
+      (forall i j, mask i j -> (Y^T *m G) i j = (Y^T *m G) j i)].
+Proof.
+have Hd : diag_mx (\row_(i < 2) (1 : rat)) = 1%:M.
+  by apply/matrixP => i j; rewrite !mxE; case: (i == j).
+cbv zeta; split.
+- split; rewrite ?trmx1 ?mul1mx ?mulmx1 ?Hd //.
+  by rewrite !mxE.
+- split=> //.
+  by move=> i j _; rewrite trmx1 mul1mx !mxE eq_sym.
+Qed.
